@@ -33,8 +33,7 @@ func (v *zzPlainVal) IsValidIngress(ing *networking.Ingress) bool { return v.ans
 func VerifC08_WatcherTransitions() {
 	cfg := &config.Config{ConfigMapName: "ing/cfg", TCPConfigMapName: "ing/tcp"}
 	val := &zzPlainVal{answers: map[*networking.Ingress]bool{}}
-	w := &watchers{cfg: cfg, val: val}
-	w.initCh()
+	w := createWatchers(context.Background(), cfg, val)
 	q := &zzQueue{}
 	var h *hdlr
 	for _, x := range w.getHandlers() {
